@@ -446,7 +446,12 @@ def generate(seed, avoid=frozenset("abcd"), **kw):
 # ----------------------------------------------------------------------------- ≈ (smallest relation)
 # Two documents are related iff their normal forms are EQUAL (dict key order ignored, list
 # order kept).  The normal form only
-#   * drops an optional key whose value is "empty" — per key, the values listed below,
+#   * drops an optional key whose value is "empty" — per key, only the values listed:
+#       exit.destination_uuid (null); group query/status/system/count (null); send_msg.all_urns,
+#       remove_contact_groups.all_groups (null, false); send_msg.topic, set_run_result.category,
+#       router.result_name, trigger.match_type (null, ""); trigger.exclude_groups ([]),
+#     (DESIGN §5 lists the first eight; result_name and match_type are the two further
+#      "optional labels" of the schema the code omits when empty)
 #   * reduces `_ui` to {node uuid: (left, top)},
 #   * brings a trigger to the two-keyword-forms shape the statement prescribes
 #     (keywords := [keyword] for legacy triggers; keyword := first keyword) and fills the
